@@ -279,6 +279,14 @@ Apply(f, vals, st) ==
            [] f.s = "pv" -> IF Len(vals) # 2 THEN Thr(st, RtErrV("arity")) ELSE Norm(Log(st, vals[1]), vals[2])
            [] f.s = "pn" -> Norm(Log(st, ListV(vals)), NilV)                \* variadic host probe
            [] f.s = "pp" -> IF Len(vals) # 1 THEN Thr(st, RtErrV("arity")) ELSE Thr(Log(st, vals[1]), RtErrV("hostpanic"))   \* a Go function that panics: an ordinary error of the call
+           [] f.s = "ch" -> IF Len(vals) # 1 THEN Thr(st, RtErrV("arity"))       \* a closed, buffered channel holding the elements of a list
+                            ELSE IF vals[1].t = "list" THEN Norm(st, V("chan", 0, "", vals[1].l)) ELSE Norm(MarkOpen(st), OpenV)
+           [] f.s = "pe" -> IF Len(vals) # 1 THEN Thr(st, RtErrV("arity"))       \* a Go function taking a callback of type func(int64) (no results): calls it with 1, then 2;
+                            ELSE IF vals[1].t # "func" THEN Norm(MarkOpen(st), OpenV)     \* an error inside the callback is an error of this call (and ends it)
+                            ELSE LET r1 == Apply(vals[1], <<IntV(1)>>, st) IN
+                                 IF r1.o = "thr" THEN Thr(r1.st, RtErrV("callback")) ELSE IF r1.o # "norm" THEN r1
+                                 ELSE LET r2 == Apply(vals[1], <<IntV(2)>>, [r1.st EXCEPT !.open = st.open]) IN       \* (what the callback returns is dropped: not an open point)
+                                      IF r2.o = "thr" THEN Thr(r2.st, RtErrV("callback")) ELSE IF r2.o # "norm" THEN r2 ELSE Norm([r2.st EXCEPT !.open = st.open], NilV)
            [] f.s = "pa" -> IF Len(vals) # 1 THEN Thr(st, RtErrV("arity")) ELSE Norm(Log(st, IntV(77)), NilV)   \* takes a pointer (&x, &a[i], &m.k), touches nothing
            [] OTHER -> Norm(MarkOpen(st), OpenV)
     [] OTHER -> Thr(st, RtErrV("notfunc"))
@@ -290,7 +298,7 @@ Apply(f, vals, st) ==
 CallV(f, e, s, st, deferred) ==
   IF f.t \notin {"func", "host"} THEN Thr(st, RtErrV("notfunc"))          \* decided before any argument is evaluated
   ELSE LET n == Len(e.args)
-           np == IF f.t = "func" THEN Len(st.fns[f.i].fn.ps) ELSE CASE f.s = "p" -> 1 [] f.s = "pv" -> 2 [] OTHER -> 1
+           np == IF f.t = "func" THEN Len(st.fns[f.i].fn.ps) ELSE CASE f.s = "p" -> 1 [] f.s = "pv" -> 2 [] OTHER -> 1     \* (pn pa pp ch: 1)
            va == IF f.t = "func" THEN st.fns[f.i].fn.va ELSE f.s = "pn"
            preMismatch == IF ~e.spread THEN (~va /\ n # np) \/ (va /\ n < np - 1)
                           ELSE IF va THEN n # np /\ n # np - 1
@@ -505,7 +513,8 @@ Exec(n, s, st) ==
     [] n.k = "forin" ->
          LET r == EvalE(n.e, s, st) IN
          IF r.o # "norm" THEN r
-         ELSE IF r.v.t \in {"list", "map"} THEN
+         ELSE IF r.v.t = "chan" /\ Len(n.vs) # 1 THEN Norm(MarkOpen(r.st), OpenV)
+         ELSE IF r.v.t \in {"list", "map", "chan"} THEN      \* a channel: every value received once, in order, until it is closed and drained
               LET st1 == NewScope(r.st, s)
                   items == IF r.v.t = "map" /\ Len(n.vs) = 1 THEN [j \in 1..Len(r.v.l) |-> r.v.l[j].l[1]] ELSE r.v.l IN   \* one variable over a map: the keys
               ForIn(n, items, 1, Top(st1), s, st1)
@@ -551,7 +560,7 @@ Exec(n, s, st) ==
 ----------------------------------------------------------------------------
 (* a whole run: top-level scope with the host probes, top-level defer list *)
 InitState(fuel) ==
-  [sc |-> <<[par |-> 0, vars |-> [n \in {"p", "pv", "pn", "pa", "pp"} |-> HostV(n)]]>>,
+  [sc |-> <<[par |-> 0, vars |-> [n \in {"p", "pv", "pn", "pa", "pp", "ch", "pe"} |-> HostV(n)]]>>,
    log |-> <<>>, fuel |-> fuel, fns |-> <<>>, ds |-> <<<<>>>>, open |-> FALSE]
 
 \* result projection: class of the outcome, value, probe log, top-level bindings
@@ -567,7 +576,7 @@ Run(prog, fuel) ==
   ELSE LET dl == b.st.ds[1]
            d == RunDefers([b.st EXCEPT !.ds = <<>>], dl, Len(dl), b, NoneV) IN
        IF d.o = "fuel" THEN [cls |-> "fuel", v |-> NilV, log |-> <<>>, top |-> <<>>, open |-> TRUE]
-       ELSE LET names == DOMAIN d.st.sc[1].vars \ {"p", "pv", "pn", "pa", "pp"} IN
+       ELSE LET names == DOMAIN d.st.sc[1].vars \ {"p", "pv", "pn", "pa", "pp", "ch", "pe"} IN
             [cls |-> CASE d.o \in {"norm", "ret"} -> "ok" [] d.o = "thr" -> "err" [] OTHER -> "strayloopctl",
              v |-> IF d.o = "ret" THEN ProjV(d.v) ELSE IF d.o = "thr" THEN d.v ELSE OpenV,
              log |-> [j \in 1..Len(d.st.log) |-> ProjV(d.st.log[j])],
